@@ -14,6 +14,10 @@
      BRT <a> ok <name> | err | panic               NameFromBytes(Name.Bytes())
      FROMBYTES <hex> ok <name> | err               NameFromBytes
      CFB <hex> ok=<comp> | err | panic             ComponentFromBytes
+     HIN <typ> <x:hex | f:len:seed> <streamlen> <stream or its first 64 bytes> <ends-with-value 0|1>
+                                                   the bytes Component.HashInto writes into a recording hash.Hash
+     HNAME <a> <stream hex> <0|1>                  concatenated HashInto streams of the components; 1 = Hash/PrefixHash/Component.Hash
+                                                   equal xxhash of exactly these bytes
      HASH <a> <0|1>                                relational hash checks done in Go (1 = held)
      STR <a> <hex>                                 Name.String
      RT <a> ok <name> | err | panic                NameFromStr(Name.String())
@@ -141,7 +145,7 @@ let () =
       incr lineno;
       (try
       match String.split_on_char ' ' line with
-      | (("PAIR" | "APAIR" | "TRIPLE" | "COMP" | "BYTES" | "STR" | "CSTR" | "HASH") as k) :: rest
+      | (("PAIR" | "APAIR" | "TRIPLE" | "COMP" | "HIN" | "HNAME" | "BYTES" | "STR" | "CSTR" | "HASH") as k) :: rest
         when (match List.rev rest with "panic" :: _ -> true | _ -> false) ->
           specfail k "the implementation panicked"
       | ["PAIR"; a; b; c; e; p1; p2; cba; heq; ea; eb] ->
@@ -181,6 +185,29 @@ let () =
           let m = match comp_from_bytes (unhexf h) with Some c -> "ok=" ^ string_of_comp c | None -> "err" in
           cmpstr "CFB" m r;
           if r = "panic" then specfail "CFB" "ComponentFromBytes panicked"
+      | ["HIN"; t; spec; slen; head; suf] ->
+          (* the exact bytes Component.HashInto wrote into a recording hasher, against comp_hash_input *)
+          let ty = n_of_dec t in
+          (match String.split_on_char ':' spec with
+           | ["x"; h] ->
+               let v = bytes_of_hex h in
+               let m = comp_hash_input { ctyp = ty; cval = v } in
+               let ml = List.length m in
+               let mh = if ml > 70100 then take 64 m else m in
+               cmpstr "HIN" (string_of_int ml ^ " " ^ hexf mh ^ " 1") (slen ^ " " ^ head ^ " " ^ suf)
+           | ["f"; l; sd] ->
+               (* value byte i = seed+i mod 256; too long to materialise: header from the model (hash_input_layout), then the
+                  first 48 value bytes, the total length, and the harness's "stream ends with the value" flag *)
+               let l = int_of_string l and sd = int_of_string sd in
+               let hd = comp_hash_header ty (n_of_int l) in
+               let first = List.init (min l 48) (fun i -> n_of_int ((sd + i) land 255)) in
+               let ml = List.length hd + l in
+               let mh = if ml > 70100 then hd @ first else hd @ List.init l (fun i -> n_of_int ((sd + i) land 255)) in
+               cmpstr "HIN" (string_of_int ml ^ " " ^ hexf mh ^ " 1") (slen ^ " " ^ head ^ " " ^ suf)
+           | _ -> failwith "bad HIN spec")
+      | ["HNAME"; a; stream; ok] ->
+          cmpstr "HNAME" (hexf (name_hash_input (name_of_string a))) stream;
+          if ok <> "1" then specfail "HNAME" "Name.Hash/PrefixHash/Component.Hash are not xxhash of the bytes HashInto feeds"
       | ["HASH"; a; ok] -> if ok <> "1" then specfail "HASH" "equal names hash differently or PrefixHash[i] <> Hash(prefix i)"
       | ["STR"; a; h] ->
           cmpstr "STR" (hexf (name_to_str (name_of_string a))) h
